@@ -417,6 +417,8 @@ def _target_names(t):
 
 
 def norm(expr, env=None, resolver=None, **kw):
+    if expr is None:
+        return ('absent',)          # e.g. a keyword argument that the call does not pass
     if isinstance(expr, str):
         expr = ast.parse(expr, mode='eval').body
     return Normalizer(env, resolver, **kw).n(expr)
